@@ -12,6 +12,14 @@ CHECKS = {
    text="Bounded symbolic execution of the MIR of every function in modular_arithmetic.rs: for all a,b in [0,p) of the three real primes each result equals the documented Circom semantics, is canonical, undefined cases are Err, and no panic or unbounded big-integer work is reachable (also for out-of-field operands < 2^256). Solver verdict over all operands, not sampling.",
    note=TB + "mod_inverse/modpow/bitwise ops on Z are shared uninterpreted symbols in code and oracle. Quick tier: complement_256 for operands < 2^16 plus boundary classes; thorough: every bit length, plus small primes.",
    ref="DESIGN.md §3 C16"),
+ 'C03': dict(
+   text="The real `main` of the cli crate and the real CachedStdoutWriter/StdoutWriter/SarifWriter executed symbolically from MIR, with argument parsing, the analysis runner, terminal rendering and SARIF serialisation replaced by recording stubs: for every --level, every set of user files, several --allow lists, SARIF on/off and every shape of <=2 (thorough 3) offered reports, a report is displayed iff level >= --level, id not allowed and not located solely in included files; displayed exactly once in order; exit status 0 iff nothing displayed; summary line equals the count; the SARIF writer receives exactly the displayed reports. Kani proves MessageCategory's order is the severity order. Counterexamples are replayed against the real binary on a generated project.",
+   note=TB + "Stubs listed in the evidence. Outside: codespan rendering, serde_sarif serialisation and SARIF field conversion, what the passes find. Report conservation through the AnalysisRunner is checked by the runner harness when listed in the evidence bounds.",
+   ref="DESIGN.md §3 C03", engine='kani+mirsym', technique="symbolic execution of rustc MIR (main + writers) with z3, Kani/CBMC for the category order; counterexamples replayed against the real binary"),
+ 'C02': dict(
+   text="check_compiler_version executed symbolically from MIR for every version triple (accepted iff major equal and (minor,patch) <= supported, otherwise an error-level report; no pragma => one warning), plus the C03 main/writer harness specialised to error-level reports: every error offered to the writer is displayed at every --level unless allowed, and then the exit status is non-zero; 'No issues found.' only when nothing was displayed.",
+   note=TB + "Partial: that the parser/desugarer/lifter actually produce a report for each failure class is outside this check (needs the pipeline); file-system errors are represented by a location-less error report offered to the writer.",
+   ref="DESIGN.md §3 C02"),
  'C15': dict(
    text="Symbolic execution of the MIR of DominatorTree::new / compute_dominators / compute_immediate_dominators / compute_dominance_frontier with the generic node type bound to a harness node whose predecessor set is a symbolic subset of the nodes: for every rooted digraph within the node bound (quick <=4, thorough <=5 nodes; self loops and irreducible graphs included) the dominator sets, immediate dominators, dominator-tree children and dominance frontiers equal their path definitions and the three internal assertions are unreachable.",
    note=TB + "HashSet<usize> is modelled as a bit set whose iteration order is ascending (order sensitivity is C17's subject). Graphs with more nodes are outside the claim.",
